@@ -421,7 +421,7 @@ class Gen:
         self.seed, self.tier = seed, tier
         rc = rng_for(seed, "cfg")
         self.r = rng_for(seed, "ops")
-        arms = [("clean", 0.4), ("reject", 0.25), ("transparent", 0.35)] if tier == "quick" else [("clean", 0.3), ("reject", 0.2), ("transparent", 0.3), ("interrupt", 0.2)]
+        arms = [("clean", 0.35), ("reject", 0.25), ("transparent", 0.28), ("interrupt", 0.12)] if tier == "quick" else [("clean", 0.3), ("reject", 0.2), ("transparent", 0.3), ("interrupt", 0.2)]
         self.arm = wchoice(rc, arms)
         self.cfg = {"arm": self.arm, "ipykernel": rc.random() < 0.25, "rseed": rc.randrange(1 << 16), "nfun": rc.randint(1, 4), "nbind": rc.randint(3, 24),
                     "p_d": rc.choice([0.0, 0.3, 0.6]), "p_repeat": rc.choice([0.2, 0.4, 0.6])}
